@@ -285,6 +285,11 @@ def body(chk):
         chk.tlc_stats(r)
         for v in r.violated:
             chk.violation(f"model:{cfg}:{v}", f"TLC: {v} violated in Loads ({cfg})", {"tlc": r.out[-3000:]})
+    # beyond the bound: the same protocol for ANY number of threads / variables / chunks, proved with TLAPS over Loads.tla itself
+    from harness import tlaps
+
+    tlaps.prove(chk, "LoadsProofs")
+    tlaps.prove(chk, "LoadsLockProofs")
     rc = tlc.run("MC_Loads", "MC_Loads_copylock_bug", workers=4)
     if "ServedIsWanted" not in rc.violated:
         raise checklib.Machinery("non-vacuity: a copy with a lock of its own on a shared file object must break ServedIsWanted in the model")
